@@ -127,6 +127,9 @@ func writeEvidence(P, tier string, seed int, eng *Engine, cone []string, results
 	if len(pc.Bounded) > 0 {
 		cov["bounded_clauses"] = pc.Bounded
 	}
+	if len(evStandins) > 0 {
+		cov["bounded_standins"] = evStandins
+	}
 	if len(undecided) > 0 {
 		cov["undecided"] = undecided
 	}
